@@ -6,8 +6,8 @@
    modelled).  The outcome is [Panic] (a panic in a connection goroutine has no recover
    and kills the process) or [Done s' frames].  [http_exec s m path q] is one HTTP request. *)
 From Coq Require Import List ZArith NArith Bool String.
-From NSQV Require Import gen.LookupdTables model.Judge model.Names model.Lookupd model.LookupSpec model.LookupProto
-  proofs.LookupdBase proofs.LookupdRefine proofs.LookupdShape proofs.LookupProtoProofs proofs.LookupHttpFrame.
+From NSQV Require Import gen.LookupdTables model.Judge model.Names model.Lookupd model.LookupSpec model.LookupProto model.LookupNames
+  proofs.LookupdBase proofs.LookupdRefine proofs.LookupdShape proofs.LookupProtoProofs proofs.LookupHttpFrame proofs.LookupNamesProofs.
 Import ListNotations.
 
 (* ---- no byte sequence on the TCP port crashes the daemon *)
@@ -36,6 +36,20 @@ Theorem C15_tables :
    /\ map bytes_of_string lookupd_magics = [magic_v1]).
 Proof. exact (conj routes_tied (conj exec_table_tied dispatch_tied)). Qed.
 Print Assumptions C15_tables.
+
+(* tcp.go Handle: the short-read branch and the clause for every other magic end the function
+   (the latter after answering E_BAD_PROTOCOL and closing) before prot - nil there - is used *)
+Theorem C15_handle_in_source : handle_shape = lookupd_Handle_shape.
+Proof. exact handle_tied. Qed.
+Print Assumptions C15_handle_in_source.
+
+Theorem C15_magic_refusal_returns : exists pre post,
+  lookupd_Handle_shape =
+    (pre ++ ["default:"; "call protocol.SendResponse E_BAD_PROTOCOL"; "call Close"; "return"; "}"]%string ++ post)%list
+  /\ ~ In "call NewClient"%string pre /\ hd_error post = Some "call NewClient"%string
+  /\ exists pre', pre = (["call make"; "call io.ReadFull"; "if err != nil {"; "call Close"; "return"; "}"]%string ++ pre')%list.
+Proof. exact magic_refusal_returns. Qed.
+Print Assumptions C15_magic_refusal_returns.
 
 Theorem C15_handler_summaries :
   identify_summary = lookupd_IDENTIFY_summary /\
@@ -235,6 +249,50 @@ Theorem C15_http_tombstone_frame : forall s m q s' st,
 Proof. exact http_tombstone_frame. Qed.
 Print Assumptions C15_http_tombstone_frame.
 
+(* ---- invalid names are refused: the registry never holds one.  [names_ok]: every key of the
+   registration map carries names that pass the name rule (1..64 bytes IN TOTAL, the optional
+   "#ephemeral" included).  It holds initially and is kept by every well-behaved command, every
+   byte stream on a connection and every HTTP request; the views of such a state - /topics,
+   /channels of any topic, the channels of /lookup, the keys of /debug - list valid names only *)
+Theorem C15_names_invariant :
+  names_ok init = true /\
+  (forall s o, names_ok s = true -> names_ok (fst (step s o)) = true) /\
+  (forall decode s p input s' fs, names_ok s = true -> exec_conn decode s p input = Done s' fs -> names_ok s' = true) /\
+  (forall s m path q s' st, names_ok s = true -> http_exec s m path q = (s', st) -> names_ok s' = true).
+Proof. exact (conj names_ok_init (conj names_ok_step (conj names_ok_conn names_ok_http))). Qed.
+Print Assumptions C15_names_invariant.
+
+Theorem C15_views_list_valid_names : forall s, names_ok s = true ->
+  (forall t, In t (q_topics s) -> is_valid_name t = true) /\
+  (forall t c, In c (q_channels s t) -> is_valid_name c = true) /\
+  (forall inactive lifetime t chs ps c,
+     q_lookup inactive lifetime s t = Some (chs, ps) -> In c chs -> is_valid_name c = true) /\
+  (forall k p b, In (k, p, b) (q_debug s) -> key_ok k = true).
+Proof. exact views_list_valid_names. Qed.
+Print Assumptions C15_views_list_valid_names.
+
+(* over HTTP an invalid name gets 400 from every route that takes one and nothing changes *)
+Theorem C15_http_invalid_topic_refused : forall s path t c n,
+  In path ["/topic/create"; "/topic/delete"; "/channel/create"; "/channel/delete"; "/topic/tombstone"]%string ->
+  is_valid_name t = false ->
+  http_exec s "POST" path (QArgs (Some t) c n) = (s, SCode 400).
+Proof. exact http_invalid_topic_refused. Qed.
+Print Assumptions C15_http_invalid_topic_refused.
+
+Theorem C15_http_invalid_channel_refused : forall s path t c n,
+  In path ["/channel/create"; "/channel/delete"]%string ->
+  is_valid_name c = false ->
+  http_exec s "POST" path (QArgs (Some t) (Some c) n) = (s, SCode 400).
+Proof. exact http_invalid_channel_refused. Qed.
+Print Assumptions C15_http_invalid_channel_refused.
+
+(* the length limit counts the suffix: 54 + 10 is the longest ephemeral name *)
+Example C15_name_length_witness :
+  is_valid_name (xs 54 ++ ephemeral_suffix) = true /\ is_valid_name (xs 55 ++ ephemeral_suffix) = false /\
+  is_valid_name (xs 64 ++ ephemeral_suffix) = false /\ is_valid_name (xs 64) = true /\ is_valid_name (xs 65) = false /\
+  is_valid_name ephemeral_suffix = false.
+Proof. exact long_ephemeral_names_invalid. Qed.
+
 (* ---- non-vacuity: concrete streams *)
 Definition s_by : state :=
   run init [Identify 0%N (mkInfo [98]%N 4150%Z 4151%Z [49]%N); Register 0%N [98; 121]%N [99]%N].
@@ -259,6 +317,20 @@ Example C15_witness :
   http_exec s_by "GET" "/topic/delete" (QArgs (Some [98; 121]%N) None None) = (s_by, SCode 405) /\
   fst (http_exec s_by "POST" "/topic/delete" (QArgs (Some [98; 121]%N) None None)) <> s_by.
 Proof. split; [apply wf_run, wf_init|]. vm_compute. repeat split; try reflexivity. discriminate. Qed.
+
+(* the bystander's state satisfies the names invariant, has keys, and a hostile producer that
+   offers a 65-byte ephemeral name (55 + "#ephemeral") as topic / as channel is refused *)
+Example C15_names_witness :
+  names_ok s_by = true /\ q_topics s_by = [[98; 121]%N] /\
+  exec_conn dec s_by 1%N (magic_v1 ++ ident_ok ++ bytes_of_string "REGISTER " ++ xs 55 ++ ephemeral_suffix ++ line " c")%list
+    = Done s_by [FIdentified; FErr E_BAD_TOPIC] /\
+  exec_conn dec s_by 1%N (magic_v1 ++ ident_ok ++ bytes_of_string "UNREGISTER by " ++ xs 64 ++ ephemeral_suffix ++ [10%N])%list
+    = Done s_by [FIdentified; FErr E_BAD_CHANNEL] /\
+  (exists s1, exec_conn dec s_by 1%N (magic_v1 ++ ident_ok ++ bytes_of_string "REGISTER " ++ xs 54 ++ ephemeral_suffix ++ line " c")%list
+    = Done s1 [FIdentified; FOk] /\ In (xs 54 ++ ephemeral_suffix)%list (q_topics s1)).
+Proof.
+  vm_compute. repeat split; try reflexivity. eexists. split; [reflexivity|]. right. left. reflexivity.
+Qed.
 
 (* the admin requests on a topic that is registered: create is answered 200 and the
    producer's entries are all still there; tombstone of its node sets the mark; delete
